@@ -93,12 +93,17 @@ theorem CEL.refl : ∀ ts : List Tok, CEL ts ts
 end
 theorem cel_nil_left {ts : List Tok} (h : CEL [] ts) : ts = [] := by cases ts <;> simp_all
 theorem cel_nil_right {ts : List Tok} (h : CEL ts []) : ts = [] := by cases ts <;> simp_all
+theorem cel_cons_left {t : Tok} {ts r : List Tok} (h : CEL (t :: ts) r) : ∃ t' ts', r = t' :: ts' ∧ CE t t' ∧ CEL ts ts' := by
+  cases r with | nil => simp at h | cons t' ts' => simp at h; exact ⟨t', ts', rfl, h⟩
+theorem cel_cons_right {t : Tok} {ts r : List Tok} (h : CEL r (t :: ts)) : ∃ t' ts', r = t' :: ts' ∧ CE t' t ∧ CEL ts' ts := by
+  cases r with | nil => simp at h | cons t' ts' => simp at h; exact ⟨t', ts', rfl, h⟩
 grind_pattern cel_nil_left => CEL [] ts
 grind_pattern cel_nil_right => CEL ts []
 theorem cel_length {ts ts' : List Tok} (h : CEL ts ts') : ts.length = ts'.length := by
   induction ts generalizing ts' with
   | nil => rw [cel_nil_left h]
   | cons t ts ih => cases ts' with | nil => simp at h | cons t' ts' => simp at h; simp [ih h.2]
+grind_pattern cel_length => CEL ts ts', ts.length
 theorem cel_isEmpty {ts ts' : List Tok} (h : CEL ts ts') : ts.isEmpty = ts'.isEmpty := by
   cases ts <;> cases ts' <;> simp_all
 grind_pattern cel_isEmpty => CEL ts ts', ts.isEmpty
